@@ -95,9 +95,11 @@ package internal
 //@   implements randReader
 //@ func fillRandom
 //@   facet C03
+//@   inline
 //@   param r randReader
 //@   requires r != nil
 //@   modifies buf[*]
 //@ func FillRandom
 //@   facet C03
 //@   modifies buf[*]
+//@   ensures [C03:returns-only-after-crypto-rand-filled-the-buffer] ncalls(Read) == 1 && arg(Read, 1, b) == buf && retis(Read, 1, 1, nil)
